@@ -145,3 +145,66 @@ def report(ctx, rule):
                                 "result applied only when not superseded, newer registration left alone, own registration removed" % n)
     else:
         ctx.fail(rule, f, f.node, "async model: %s (%d disagreeing case(s))" % (problems[0], len(problems)), key=f.qualname + "::async-model")
+
+
+def executor_order_model(ctx, rule):
+    """param._utils.async_executor interpreted abstractly with a running loop: two calls are made back to back (two
+    assignments of asynchronous references without a loop iteration in between), then the callbacks the loop was handed
+    (call_soon) run in the order they were handed over.  Specification: every call is turned into a task exactly once,
+    and the tasks are created in CALL order -- supersession ('the evaluation scheduled later starts later and wins')
+    rests on that order."""
+    from engine.absint import Interp, Obj, PyFunc, Unsupported
+    from engine.loader import AnalysisError
+    f = ctx.repo.func("param._utils.async_executor")
+    started, soon = [], []
+    loop = Obj("event_loop")
+
+    def hook(fn, args, kwargs):
+        if fn in ("asyncio.get_event_loop", "asyncio.get_running_loop", "asyncio.new_event_loop"):
+            return loop
+        if fn.endswith(".is_running"):
+            return True
+        if fn == "asyncio.ensure_future" or fn == "asyncio.create_task" or fn.endswith(".create_task"):
+            started.append(args[0] if args else None)
+            return Obj("task_%d" % len(started))
+        if fn.endswith(".call_soon") and args:
+            soon.append((args[0], list(args[1:])))
+            return None
+        if fn.endswith(".add_done_callback") or fn.endswith(".add") or fn.endswith(".discard"):
+            return None
+        return NotImplemented
+    it = Interp(ctx.hier, call_hook=hook, inline_module_functions=True, globals={"_running_tasks": set()})
+    tokens = [Obj("coroutine_of_call_1"), Obj("coroutine_of_call_2"), Obj("coroutine_of_call_3")]
+    try:
+        for t in tokens:
+            outs = it.run_all(f, {"func": PyFunc("func", (lambda t=t: t))})
+            if len(outs) != 1 or outs[0].imprecise or outs[0].kind != "return":
+                raise AnalysisError("%s: async_executor is not interpretable precisely (%s)" % (rule, outs[0].notes[:2] if outs else "no outcome"))
+        # the loop now runs what it was handed, first in first out
+        guard = 0
+        while soon and guard < 20:
+            guard += 1
+            cb, cargs = soon.pop(0)
+            from engine.absint import DefClosure, BoundMethod
+            if isinstance(cb, PyFunc):
+                cb.fn(*cargs)
+            elif isinstance(cb, DefClosure):
+                it.call_def_closure(cb, cargs, {})
+            elif isinstance(cb, BoundMethod):
+                it.invoke(cb.func, cargs, {}, cb.obj)
+            elif isinstance(cb, str) or cb is None:
+                raise AnalysisError("%s: async_executor hands the loop a callback the model cannot follow (%r)" % (rule, cb))
+            else:
+                g = ctx.repo.funcs.get("param._utils.%s" % getattr(cb, "name", ""))
+                if g is None:
+                    raise AnalysisError("%s: async_executor hands the loop a callback the model cannot follow (%r)" % (rule, cb))
+                it.invoke(g, cargs, {}, None)
+    except Unsupported as e:
+        raise AnalysisError("%s: absint cannot interpret async_executor: %s" % (rule, e))
+    ctx.abstract_cases += 1
+    if len(started) != len(tokens) or any(a is not b for a, b in zip(started, tokens)):
+        ctx.fail(rule, f, f.node, "three back-to-back calls of async_executor start their coroutines in the order %s, specification: call order, each once -- with the oldest evaluation "
+                                  "started last, it is the one that is registered as current and its result the parameter ends up with" % [getattr(x, "name", x) for x in started],
+                 key=f.qualname + "::start-order")
+    else:
+        ctx.ok(rule, f, f.node, "back-to-back calls of async_executor start their coroutines in call order, each exactly once")
